@@ -355,4 +355,84 @@ theorem hopQ_ok_list (S : Str → Bool) (vf : Err → Str) : (cs : List Err) →
     exact ⟨e' :: r', by simp [encodeList, decodeList, he, hr], by simp [encodeList, hen, henr], by simp [textList, ht, htr]⟩
 end
 
+
+/-! ## Type names and marks of every layer, read off the wire -/
+
+/-- the visible cause tree with, at every layer, the original type name and the type mark -/
+inductive NTree
+  | node (otype : Str) (mark : TMark) (multi : Bool) (kids : List NTree)
+  deriving Repr, Inhabited
+
+section
+variable (P : Proc)
+mutual
+def names : Err → NTree
+  | .leaf id k => .node (origTypeName (.leaf id k)) (typeMark P (.leaf id k)) false []
+  | .barrier id m h => .node (origTypeName (.barrier id m h)) (typeMark P (.barrier id m h)) false []
+  | .wrap id k c => .node (origTypeName (.wrap id k c)) (typeMark P (.wrap id k c)) false [names c]
+  | .second id c s => .node (origTypeName (.second id c s)) (typeMark P (.second id c s)) false [names c]
+  | .multi id k cs => .node (origTypeName (.multi id k cs)) (typeMark P (.multi id k cs)) (!cs.isEmpty) (namesL cs)
+def namesL : List Err → List NTree
+  | [] => []
+  | e :: r => names e :: namesL r
+end
+end
+
+mutual
+def wireNames : Enc → NTree
+  | .leaf _ d _ causes => .node d.origType d.mark (!causes.isEmpty) (wireNamesL causes)
+  | .wrap _ d _ _ cause => .node d.origType d.mark false [wireNames cause]
+def wireNamesL : List Enc → List NTree
+  | [] => []
+  | e :: r => wireNames e :: wireNamesL r
+end
+
+theorem encodeList_isEmpty (P : Proc) (vf : Err → Str) (cs : List Err) : (encodeList P vf cs).isEmpty = cs.isEmpty := by
+  cases cs <;> simp [encodeList]
+
+mutual
+/-- what is on the wire names every visible layer: its original type name and its mark -/
+theorem wireNames_encode (P : Proc) (vf : Err → Str) : (e : Err) → wireNames (encode P vf e) = names P e
+  | .leaf id k => by
+    cases k <;> simp only [encode] <;> (try split) <;> simp [wireNames, names, detOf, wireNamesL] <;> rfl
+  | .barrier id m h => by
+    simp only [encode]; split <;> simp [wireNames, names, detOf, wireNamesL]
+  | .wrap id k c => by
+    have ih := wireNames_encode P vf c
+    cases k <;> simp only [encode] <;> (try split) <;> simp [wireNames, names, detOf, ih] <;> rfl
+  | .second id c s => by
+    have ih := wireNames_encode P vf c
+    simp only [encode]; split <;> simp [wireNames, names, detOf, ih]
+  | .multi id k cs => by
+    have ih := wireNamesL_encode P vf cs
+    cases k <;> simp [encode, wireNames, names, detOf, ih, encodeList_isEmpty] <;> rfl
+theorem wireNamesL_encode (P : Proc) (vf : Err → Str) : (cs : List Err) → wireNamesL (encodeList P vf cs) = namesL P cs
+  | [] => by simp [encodeList, wireNamesL, namesL]
+  | e :: r => by simp [encodeList, wireNamesL, namesL, wireNames_encode P vf e, wireNamesL_encode P vf r]
+end
+
+mutual
+theorem names_Sub (S : Str → Bool) : (e : Err) → names (Sub S) e = names Full e
+  | .leaf _ _ => by simp [names]
+  | .barrier _ _ _ => by simp [names]
+  | .wrap _ _ c => by simp [names, names_Sub S c]
+  | .second _ c _ => by simp [names, names_Sub S c]
+  | .multi _ _ cs => by simp [names, namesL_Sub S cs]
+theorem namesL_Sub (S : Str → Bool) : (cs : List Err) → namesL (Sub S) cs = namesL Full cs
+  | [] => by simp [namesL]
+  | e :: r => by simp [namesL, names_Sub S e, namesL_Sub S r]
+end
+
+/-- hence at a process knowing any subset of the types, the received error has the origin's
+    cause-tree shape (branch count and order included) and, at every layer, the origin's type name
+    and mark -/
+theorem hopQ_names (S : Str → Bool) (vf : Err → Str) (e : Err) (path : List Nat) (h : stable e = true) (hf : faithful e = true) :
+    ∃ e', decode (Sub S) path (encode Full vf e) = some e' ∧ names Full e' = names Full e := by
+  obtain ⟨e', h1, h2, _⟩ := hopQ_ok S vf e path h hf
+  refine ⟨e', h1, ?_⟩
+  have := wireNames_encode (Sub S) vf e'
+  rw [h2, wireNames_encode Full vf e] at this
+  rw [names_Sub] at this
+  exact this.symm
+
 end ErrModel
